@@ -6,7 +6,7 @@
 (*  kind "total": outcomes of the parser on a batch of arbitrary strings   *)
 (*                over the format's alphabet                               *)
 (***************************************************************************)
-EXTENDS RankBase, Json, IOUtils
+EXTENDS RankBase, TextScan, Json, IOUtils
 
 VARIABLES i, verdict
 Trace == ndJsonDeserialize(IOEnv.TRACE_FILE)
@@ -18,8 +18,12 @@ VParse(rec) ==
     ELSE IF rec.eq # 1 THEN <<"viol", "C18:text-round-trip-equality">>
     ELSE <<"ok", "parse">>
 
+\* the verdict is the property's clause (no other failure mode); the scanner model's own prediction of WHICH strings
+\* are accepted (TextScan!Scan) is compared as drift
 VTotal(rec) ==
     IF \E k \in DOMAIN rec.outs : rec.outs[k] \notin {"ok", "ValueError"} THEN <<"viol", "C18:parser-failure-mode">>
+    ELSE IF Len(rec.chars) = Len(rec.outs) /\ \E k \in DOMAIN rec.outs : Scan(rec.chars[k])[1] # rec.outs[k]
+         THEN <<"drift", "scanner-model-differs">>
     ELSE <<"ok", "total">>
 
 Verdict(rec) == IF rec.kind = "parse" THEN VParse(rec) ELSE VTotal(rec)
